@@ -16,7 +16,8 @@ IdLens == {0, 1, 16, 64, 255, 256, 1023, 65535}
 Exts == {"none", "mc-bool", "ga-bytes"}
 EncCases ==
     { [rp |-> r, ctr |-> c, flags |-> f, at |-> FALSE, idlen |-> 0, ext |-> e] :
-        r \in {"ascii", "idn"}, c \in Counters, f \in FlagSets, e \in Exts } \cup
+        \* the RP ID is hashed exactly as given: mixed case, raw Unicode, empty, trailing dot and long ids included
+        r \in {"ascii", "idn", "upper", "unicode", "empty", "dot", "long"}, c \in Counters, f \in FlagSets, e \in Exts } \cup
     { [rp |-> "ascii", ctr |-> c, flags |-> f, at |-> TRUE, idlen |-> n, ext |-> e] :
         c \in Counters, f \in FlagSets, n \in IdLens, e \in Exts }
 
